@@ -774,11 +774,18 @@ pub fn run(ctx: &Ctx) -> i32 {
     std::env::set_var("VERIF_TIER", &ctx.tier);
     let mut rep = Report::new();
     run_cases(ctx, &mut rep, "networks", ctx.cases(8000, 300_000), case);
+    // networks of real daemons (processes built from /repo) on bridges and veth pairs in a private network namespace
+    std::env::set_var("VERIF_C01_E2E_NODES", if ctx.quick() { "3" } else { "4" });
+    let workers = (ctx.threads as u64 / 2).clamp(2, 8);
+    let sum = crate::daemon::run_part(ctx, &mut rep, ctx.cases(2 * workers, 40 * workers), workers);
+    if let Some(why) = &sum.skipped {
+        println!("note: end-to-end daemon part skipped ({}); the other parts are unaffected", why);
+    }
     finish(
         Finish {
             ctx,
             level: "exploration",
-            rule: "networks of 2-4 (thorough 2-7) real PtpInstances with 1-3 ports on segments (point-to-point links, shared segments of up to 4 endpoints, rings, two ports of one instance on one segment), built constructively so that they are connected; per node priority1/clockClass (6,7,127,128,248,255)/accuracy/variance/priority2 from small domains, distinct identities, slave-only on some nodes; one announce interval per network (log -2..1), receipt timeout 2..4; path trace + TLV forwarding on all nodes in a third of the networks; per delivery a delay of 1..400 us plus jitter up to 20 us; per node a BMCA phase; event ties broken by a generated seed; after convergence one fault (cut one endpoint, cut and restore, silence a node, change a node's quality, toggle slave-only). Predicates G/T/S of DESIGN.md C01 evaluated every half interval until they hold (bound (2*timeout+7)*(D+2) announce intervals) and then at every BMCA of every node over 12 intervals together with constancy of all port states and data sets (no flap). Non-trivial = >= 3 instances and (a boundary clock or a shared segment); distinct by scenario.",
+            rule: "networks of 2-4 (thorough 2-7) real PtpInstances with 1-3 ports on segments (point-to-point links, shared segments of up to 4 endpoints, rings, two ports of one instance on one segment), built constructively so that they are connected; per node priority1/clockClass (6,7,127,128,248,255)/accuracy/variance/priority2 from small domains, distinct identities, slave-only on some nodes; one announce interval per network (log -2..1), receipt timeout 2..4; path trace + TLV forwarding on all nodes in a third of the networks; per delivery a delay of 1..400 us plus jitter up to 20 us; per node a BMCA phase; event ties broken by a generated seed; after convergence one fault (cut one endpoint, cut and restore, silence a node, change a node's quality, toggle slave-only). Predicates G/T/S of DESIGN.md C01 evaluated every half interval until they hold (bound (2*timeout+7)*(D+2) announce intervals) and then at every BMCA of every node over 12 intervals together with constancy of all port states and data sets (no flap). Part daemon: networks of 2-3 (thorough 2-4) real statime daemons in a private network namespace - every segment a Linux bridge, every port a veth pair, trees of point-to-point and shared segments, generated priority1 ranking (or all equal: the identity decides), path trace on/off, PTP over Ethernet, announce interval 125 ms; after convergence one fault (kill the grandmaster or another daemon, cut an endpoint out of its bridge, cut and restore); the same predicates evaluated on what the daemons publish on their observation sockets, polled every 60 ms, within the in-process bound x 1.5 in real time (+1.5 s process start), then 12 intervals without any change. Non-trivial = >= 3 instances and (a boundary clock or a shared segment); distinct by scenario.",
             assumptions: vec!["servo irrelevant here: recording filter, ideal clocks".into(), "master_only ports are left to C08".into(), "liveness checked as bounded-horizon safety".into()],
             min_nontrivial: 50,
         },
@@ -788,5 +795,10 @@ pub fn run(ctx: &Ctx) -> i32 {
 
 pub fn replay(ctx: &Ctx, path: &str) -> i32 {
     std::env::set_var("VERIF_TIER", &ctx.tier);
+    let part = std::fs::read_to_string(path).ok().and_then(|s| serde_json::from_str::<serde_json::Value>(&s).ok()).and_then(|v| v["part"].as_str().map(|x| x.to_string()));
+    if part.as_deref() == Some("daemon") {
+        std::env::set_var("VERIF_C01_E2E_NODES", "4");
+        return crate::daemon::replay_part(ctx, path, 3);
+    }
     replay_file(ctx, path, case)
 }
